@@ -109,8 +109,12 @@ sp_strsv(char *uplo, char *trans, char *diag, SuperMatrix *L,
               strncmp(trans, "C", 1)!=0) *info = -2;
     else if ( strncmp(diag, "U", 1)!=0 && strncmp(diag, "N", 1)!=0 )
          *info = -3;
-    else if ( L->nrow != L->ncol || L->nrow < 0 ) *info = -4;
-    else if ( U->nrow != U->ncol || U->nrow < 0 ) *info = -5;
+    else if ( L->nrow != L->ncol || L->nrow < 0 ||
+	      L->Stype != SLU_SC || L->Dtype != SLU_S || L->Mtype != SLU_TRLU )
+	*info = -4;
+    else if ( U->nrow != U->ncol || U->nrow < 0 ||
+	      U->Stype != SLU_NC || U->Dtype != SLU_S || U->Mtype != SLU_TRU )
+	*info = -5;
     if ( *info ) {
 	int ii = -(*info);
 	input_error("sp_strsv", &ii);
@@ -393,7 +397,9 @@ sp_sgemv(char *trans, float alpha, SuperMatrix *A, float *x,
     if ( !notran && strncmp(trans, "T", 1)!=0 && strncmp(trans, "t", 1)!=0 &&
 	 strncmp(trans, "C", 1)!=0 && strncmp(trans, "c", 1)!=0 )
         info = 1;
-    else if ( A->nrow < 0 || A->ncol < 0 ) info = 3;
+    else if ( A->nrow < 0 || A->ncol < 0 ||
+	      (A->Stype != SLU_NC && A->Stype != SLU_NCP) ||
+	      A->Dtype != SLU_S || A->Mtype != SLU_GE ) info = 3;
     else if (incx == 0) info = 5;
     else if (incy == 0)	info = 8;
     if (info != 0) {
